@@ -516,6 +516,18 @@ def builtin_getattr(interp, v, name):
             return PyFunc(lambda interp: list(v.keys()), 'dict.keys')
         if name == 'values':
             return PyFunc(lambda interp: list(v.values()), 'dict.values')
+        if name == 'pop':
+            def pop(interp, k, *d):
+                if k in v:
+                    return v.pop(k)
+                if d:
+                    return d[0]
+                interp.raise_('KeyError', k)
+            return PyFunc(pop, 'dict.pop')
+        if name == 'update':
+            return PyFunc(lambda interp, *a, **k: v.update(*a, **k), 'dict.update')
+        if name == 'setdefault':
+            return PyFunc(lambda interp, k, d=None: v.setdefault(k, d), 'dict.setdefault')
     if isinstance(v, slice):
         return {'start': v.start, 'stop': v.stop, 'step': v.step}[name]
     if isinstance(v, ExcVal):
